@@ -40,6 +40,11 @@ func corpus() [][]string {
 		{"tp store wrapped", "tp init none", "tp compute new 5 -", "tp get -", "tp del -", "tp compute new 6 -", "tp reopen", "tp get -"},
 		{"ts store fmt", "ts get 1 -", "ts has 1 -", "ts set 1 10 -", "ts get 1 -", "ts del 1 -", "ts get 1 -", "ts get 1 kv1", "ts iter - fwd 0 kv1"},
 		{"ts set 65535 1 -", "ts set 1 18446744073709551615 -", "ts get 65535 -", "ts has 65535 -", "ts del 65535 -", "ts get 1 -", "ts del 1 -"},
+		// a store whose failing write took effect all the same: the error is reported, the cache is untouched (and is then
+		// behind the store until the next successful write or a fresh object)
+		{"tv faults dirty", "tv init none", "tv set 5 -", "tv set 7 kv1", "tv get -", "tv has -", "tv compute add 1 -", "tv get -", "tv reopen", "tv get -"},
+		{"tv faults dirty", "tv init none", "tv set 5 -", "tv del kv1", "tv get -", "tv has -", "tv compute incx 9 kv2", "tv get -", "tv reopen", "tv get -", "tv has -"},
+		{"tv faults dirty", "tv init 0000000000000003", "tv compute add 1 kv2", "tv get -", "tv compute add 1 kv1", "tv set 8 enc", "tv get -", "tv del kv1", "tv has -", "tv get -", "tv set 1 -", "tv get -"},
 		// zero-length encodings: the value 0 is stored as the empty byte string; the key is present all the same
 		{"tv values zempty", "tv init none", "tv set 0 -", "tv has -", "tv get -", "tv reopen", "tv has -", "tv get -", "tv compute add 1 -", "tv get -", "tv set 0 -",
 			"tv reopen", "tv compute incx 9 -", "tv reopen", "tv compute nc -", "tv del -", "tv get -", "tv has -"},
@@ -90,6 +95,20 @@ func exhaustiveTV() [][]string {
 					}
 					c = append(c, pre...)
 					c = append(c, "tv "+op+" "+ft, "tv get -", "tv has -", "tv reopen", "tv get -")
+					out = append(out, c)
+				}
+			}
+		}
+	}
+	// dirty failures of the store write: every writing op x every cache prelude x both store-call positions, then probes
+	// through the (possibly stale) cache and through a fresh object
+	for _, in := range []string{"none", "0000000000000007"} {
+		for _, pre := range preludes {
+			for _, op := range []string{"set 5", "del", "compute const 5", "compute add 1", "compute incx 3", "compute nc", "compute fail", "get", "has"} {
+				for _, ft := range []string{"kv1", "kv2", "kv1,kv2", "kv2,enc", "-"} {
+					c := []string{"tv faults dirty", "tv init " + in}
+					c = append(c, pre...)
+					c = append(c, "tv "+op+" "+ft, "tv get -", "tv has -", "tv compute add 1 -", "tv get -", "tv reopen", "tv get -", "tv has -")
 					out = append(out, c)
 				}
 			}
@@ -231,6 +250,9 @@ func genTV(rng *hx.Rng) []string {
 	}
 	if rng.Chance(2, 5) {
 		ops = append([]string{"tv store " + hx.Pick(rng, []string{"wrapped", "fmt"})}, ops...)
+	}
+	if rng.Chance(1, 5) {
+		ops = append([]string{"tv faults dirty"}, ops...)
 	}
 	vals := tvValues
 	if rng.Chance(1, 4) {
